@@ -6,4 +6,4 @@ Definition gen_fnsym_facts : facts :=
     [(Add, Add); (Sub, Sub); (Mul, Mul); (Div, Div); (Pow, Pow); (Mod, Mod); (FloorDiv, FloorDiv)]
     [(UAdd, UAdd); (USub, USub)]
     [(Gt, RelGt); (GtE, RelGe); (Lt, RelLt); (LtE, RelLe); (CEq, RelEq); (CNe, RelNe)]
-    true SubsSim TupSim StmtRaise (CfContinuation BrCopy BrCopy) true true true ConstAtCall FbRaise ArityStrict.
+    true SubsSim TupSim StmtRaise (CfContinuation BrCopy BrCopy) KwRefused true true ConstAtCall FbRaise ArityStrict AnRefuse.
